@@ -19,6 +19,8 @@ def run_property(pid, tier, root=None):
   mod = importlib.import_module('sa.props.%s' % pid.lower())
   ctx = report.Ctx(pid, tier, Program(root))
   mod.check(ctx)
+  if ctx.floor_failures and not ctx.findings:
+    raise AnalysisError('; '.join(ctx.floor_failures))
   return ctx
 
 
